@@ -97,10 +97,20 @@ def correspond(ctx, scale):
             eff0 = mod.codebook.detach().clone() if kind == 'simvq' else None
             stepped = False
             for oi in range(rng.choice([6, 10, 16])):
-                op = rng.choice(['train_fwd', 'eval_fwd', 'backward', 'opt', 'fixed'])
+                op = rng.choice(['train_fwd', 'eval_fwd', 'backward', 'opt', 'fixed'] + (['loss_fwd', 'loss_fwd'] if kind == 'rpq' else []))
+                if kind == 'rpq' and oi == 0 and rep % 2 == 0:
+                    op = 'loss_fwd'            # the loss path as the very first call of a fresh module
                 trace.append(op)
                 evaluations += 1
                 try:
+                    if op == 'loss_fwd':
+                        # RandomProjectionQuantizer(x, indices=...) returns the cross-entropy loss; it must not touch the random codebook either
+                        mod.train(rng.random() < 0.8)
+                        H_ = mod.vq.heads
+                        tgt = torch.randint(0, 6, (2, 5, H_) if H_ > 1 else (2, 5))
+                        mod(torch.randn(2, 5, dim), indices=tgt)
+                        dist['forwards'] += 1
+                        dist['rpq_loss_path'] = dist.get('rpq_loss_path', 0) + 1
                     if op in ('train_fwd', 'eval_fwd', 'fixed', 'backward'):
                         mod.train(op != 'eval_fwd' and (op != 'fixed' or rng.random() < 0.5))
                         x = fixed_x if op == 'fixed' else torch.randn(2, 5, dim) * rng.choice([0.1, 1.0, 5.0])
